@@ -1,13 +1,13 @@
 SPECIFICATION Spec
 CONSTANTS
-  Groups = {"bids"}
-  Pinned = TRUE
+  Groups = {"syncduty"}
+  Pinned = FALSE
   InPlace = FALSE
   Reuse = FALSE
   WideEnv = TRUE
   Share = "period"
   AliasWrite = "none"
   MaxPar = 2
-INVARIANTS TypeOK Linearizable Disciplined
+INVARIANTS TypeOK Linearizable Disciplined SharedImmutable
 CONSTRAINT Bounded
 CHECK_DEADLOCK FALSE
